@@ -183,3 +183,132 @@ Proof.
   split; [exact Hdelta|]. split; [exact Hcpf|].
   apply funding_owed_settled; [rewrite Hec; exact HD|]. cbn [p_lupf]. rewrite Hcpf. exact El.
 Qed.
+
+(* ---------- C12: which notional the fee is charged on, once; fee-free operations ---------- *)
+(* everything a message list moves to address a (vault payouts and pulls from a wallet alike) *)
+Fixpoint paid_to (a : addr) (msgs : list submsg) : Z :=
+  match msgs with
+  | [] => 0
+  | s :: rest =>
+      (match sm_msg s with
+       | MTransfer to amt => if to =? a then amt else 0
+       | MTransferFrom _ to amt => if to =? a then amt else 0
+       | _ => 0 end) + paid_to a rest
+  end.
+
+Lemma paid_to_app a l1 l2 : paid_to a (l1 ++ l2) = paid_to a l1 + paid_to a l2.
+Proof. induction l1 as [|s l IH]; cbn [paid_to app]; [lia|]. rewrite IH. lia. Qed.
+
+Lemma paid_to_withdraw w st receiver amount pre st' msgs a :
+  withdraw w st receiver amount pre = Ok (st', msgs) -> receiver <> a -> paid_to a msgs = 0.
+Proof.
+  intros H Hn. apply withdraw_spec in H. destruct H as (sf & [ (E & _) | (E & _) ]); subst msgs;
+  cbn [paid_to sm_msg execute_transfer execute_insurance_fund_withdrawal]; destr_if; lia.
+Qed.
+
+(* OpenPosition records the requested quote amount margin x leverage / D as the notional to trade and
+   to charge, with the fee not yet paid *)
+Lemma open_position_tmp w t v s m l lim f w' subs :
+  e_open_position w t v s m l lim f = Ok (w', subs) ->
+  exists tm, e_tmp (w_eng w') = Some tm /\ ts_vamm tm = v /\ ts_trader tm = t /\ ts_side tm = s /\
+    ts_open_notional tm = m * l / e_dec (ec (w_eng w)) /\ ts_leverage tm = l /\ ts_margin_amount tm = m /\
+    ts_fees_paid tm = false /\ ts_mtv tm = szero.
+Proof.
+  unfold e_open_position. intros H. arm H. arith_ok. subst.
+  all: eexists; cbn [w_eng set_eng e_tmp eng_set_sent eng_set_tmp]; split; [reflexivity|];
+       cbn [ts_vamm ts_trader ts_side ts_open_notional ts_leverage ts_margin_amount ts_fees_paid ts_mtv]; repeat split; reflexivity.
+Qed.
+
+(* the increase / reduce reply charges the fee on the recorded notional unless the reversal's first leg
+   already did; the fee messages are the last ones it emits *)
+Lemma update_position_reply_fees w i o id w' subs tm :
+  update_position_reply w i o id = Ok (w', subs) -> e_tmp (w_eng w) = Some tm ->
+  exists msgs1, 
+    (ts_fees_paid tm = true -> subs = msgs1 ++ []) /\
+    (ts_fees_paid tm = false -> exists w1 fmsgs spread toll,
+        w_vamms w1 = w_vamms w /\ ec (w_eng w1) = ec (w_eng w) /\ w_tok w1 = w_tok w /\
+        transfer_fees w1 (ts_trader tm) (ts_vamm tm) (ts_open_notional tm) = Ok (fmsgs, spread, toll) /\
+        subs = msgs1 ++ fmsgs).
+Proof.
+  intros H Htmp. unfold update_position_reply, need_tmp in H. rewrite Htmp in H. cbn [bind] in H.
+  destruct (ts_fees_paid tm) eqn:Efp; cbn [negb] in H; arm H.
+  all: eexists; split; intros Hfp; try discriminate Hfp; try reflexivity.
+  all: match goal with Hf : transfer_fees ?w1 _ _ _ = Ok _ |- _ => exists w1; do 3 eexists; split; [reflexivity|split; [reflexivity|split; [reflexivity|split; [exact Hf|reflexivity]]]] end.
+Qed.
+
+(* the reversal's first leg charges the fee once on the requested notional and marks it paid for the
+   re-opening leg *)
+Lemma reverse_position_reply_fees w i o w' subs tm :
+  reverse_position_reply w i o = Ok (w', subs) -> e_tmp (w_eng w) = Some tm ->
+  exists fmsgs spread toll last,
+    transfer_fees w (ts_trader tm) (ts_vamm tm) (ts_open_notional tm) = Ok (fmsgs, spread, toll) /\
+    subs = fmsgs ++ [last] /\
+    ((exists amt, last = execute_transfer (ts_trader tm) amt) /\ e_tmp (w_eng w') = None \/
+     (exists tm', e_tmp (w_eng w') = Some tm' /\ ts_fees_paid tm' = true /\
+        last = internal_increase_position (ts_vamm tm) (ts_side tm) (ts_open_notional tm') 0)).
+Proof.
+  intros H Htmp. unfold reverse_position_reply, need_tmp in H. rewrite Htmp in H. cbn [bind] in H.
+  arm H.
+  all: do 4 eexists; split; [reflexivity|]; split; [reflexivity|].
+  all: cbn [w_eng set_eng e_tmp eng_set_state eng_set_sent eng_set_tmp].
+  all: first [ left; split; [eexists; reflexivity|reflexivity]
+             | right; eexists; split; [reflexivity|]; split; reflexivity ].
+Qed.
+
+(* deposits, withdrawals, funding settlements and liquidations pay nothing to the fee pool *)
+Lemma deposit_no_fee w t v amount funds w' msgs :
+  e_deposit_margin w t v amount funds = Ok (w', msgs) -> e_feepool (ec (w_eng w)) <> A_ENGINE ->
+  paid_to (e_feepool (ec (w_eng w))) msgs = 0.
+Proof.
+  intros H Hn. apply deposit_margin_spec in H. destruct H as (p & _ & _ & _ & _ & Hm).
+  destruct (t_native (w_tok w)).
+  - destruct Hm as [_ ->]. reflexivity.
+  - subst msgs. unfold execute_transfer_from. destruct (t_native (w_tok w)); cbn [paid_to sm_msg]; destr_if; lia.
+Qed.
+
+Lemma withdraw_no_fee w t v amount w' msgs :
+  e_withdraw_margin w t v amount = Ok (w', msgs) -> t <> e_feepool (ec (w_eng w)) ->
+  paid_to (e_feepool (ec (w_eng w))) msgs = 0.
+Proof.
+  unfold e_withdraw_margin. intros H Hn. arm H.
+  match goal with Hw : withdraw _ _ _ _ _ = Ok _ |- _ => apply (paid_to_withdraw _ _ _ _ _ _ _ _ Hw Hn) end.
+Qed.
+
+Lemma pay_funding_no_fee w pf vamm w' msgs :
+  pay_funding_reply w pf vamm = Ok (w', msgs) -> e_ifund (ec (w_eng w)) <> e_feepool (ec (w_eng w)) ->
+  paid_to (e_feepool (ec (w_eng w))) msgs = 0.
+Proof.
+  unfold pay_funding_reply, append_cumulative_premium_fraction. intros H Hn. arm H.
+  all: repeat destr_if; cbn [paid_to sm_msg execute_transfer_to_insurance_fund execute_transfer execute_insurance_fund_withdrawal set_eng w_eng ec eng_set_vmap];
+       repeat destr_if; zb; try lia; try congruence.
+Qed.
+
+Lemma liquidate_reply_no_fee w i o w' msgs liq :
+  liquidate_reply w i o = Ok (w', msgs) -> e_liq (w_eng w) = Some liq ->
+  liq <> e_feepool (ec (w_eng w)) -> e_ifund (ec (w_eng w)) <> e_feepool (ec (w_eng w)) ->
+  paid_to (e_feepool (ec (w_eng w))) msgs = 0.
+Proof.
+  intros H Hl Hn Hi. unfold liquidate_reply, need_liq in H. rewrite Hl in H.
+  arm H.
+  all: rewrite ?paid_to_app.
+  all: repeat match goal with
+       | Hw : withdraw _ _ _ _ _ = Ok _ |- _ => rewrite (paid_to_withdraw _ _ _ _ _ _ _ _ Hw Hn); clear Hw
+       | Hr : realize_bad_debt _ _ _ = Ok _ |- _ => unfold realize_bad_debt in Hr; minv Hr; inv_ok
+       end.
+  all: cbn [paid_to sm_msg execute_transfer execute_insurance_fund_withdrawal]; repeat destr_if;
+       cbn [paid_to sm_msg execute_transfer execute_insurance_fund_withdrawal]; repeat destr_if; zb; try lia; try congruence.
+Qed.
+
+Lemma partial_liquidation_reply_no_fee w i o w' msgs liq :
+  partial_liquidation_reply w i o = Ok (w', msgs) -> e_liq (w_eng w) = Some liq ->
+  liq <> e_feepool (ec (w_eng w)) -> e_ifund (ec (w_eng w)) <> e_feepool (ec (w_eng w)) ->
+  paid_to (e_feepool (ec (w_eng w))) msgs = 0.
+Proof.
+  intros H Hl Hn Hi. unfold partial_liquidation_reply, need_liq in H. rewrite Hl in H.
+  arm H.
+  all: cbn [paid_to sm_msg execute_transfer fst snd].
+  all: repeat match goal with
+       | Hw : withdraw _ _ _ _ _ = Ok _ |- _ => rewrite (paid_to_withdraw _ _ _ _ _ _ _ _ Hw Hn); clear Hw
+       end.
+  all: repeat destr_if; zb; try lia; try congruence.
+Qed.
